@@ -241,10 +241,43 @@ def monitor(op_line, out_line, st, flavor='panoc'):
                     f'callback\'s (x, x̂, p, γ, ∇ψ, ∇ψ̂, ŷ) gives {val!r} ({d:.3g} ulps apart)')
         bump('eps_formula_' + ('bitexact' if d == 0 else 'within_4ulp'))
         bump('eps_crit_' + S.CRITS[crit])
+        # the gradients ε was computed from are the gradients AT the reported points (polynomial test
+        # problem: exact rationals; not under NaN injection, which makes the oracle history-dependent)
+        if flavor in ('panoc', 'zerofpr', 'pantr') and op.nat('nanat', 0) == 0:
+            m = stale_gradient(op, last, need_gh)
+            if m:
+                return m
         # the written-back x is the x̂ of that iterate
         wrote = status in ('Converged', 'Interrupted') or P['overwrite']
         if wrote and [C.f2h(a) for a in r['out']['x']] != [C.f2h(a) for a in last['xhat']]:
             return 'written-back x is not the x̂ of the iterate ε was computed from'
+    return None
+
+
+def stale_gradient(op, cb, need_gh):
+    """∇ψ(x) (and ∇ψ(x̂) when the criterion reads it) of the final callback against the exact gradient of the
+    polynomial problem at the reported x / x̂.  -> None | message."""
+    from fractions import Fraction as Fr
+    try:
+        ex = S.Exact(op)
+    except Exception:
+        return None
+    y0 = S.frv(op.vec('y0')); Sig = S.frv(op.vec('Sig'))
+    pairs = [('∇ψ(x)', 'x', 'grad_psi')]
+    if need_gh:
+        pairs.append(('∇ψ(x̂)', 'xhat', 'grad_psi_hat'))
+    for name, at, field in pairs:
+        pt, got = cb[at], cb[field]
+        if len(got) != len(pt) or not LP.finite(*(pt + got)):
+            continue
+        g = ex.grad_psi(S.frv(pt), y0, Sig)
+        scale = max([abs(float(b)) for b in g] + [abs(a) for a in pt] + [1.0])
+        amp = (1 + max(abs(float(v)) for v in list(ex.Q) + [Fr(1)])) ** 2
+        for i, (a, b) in enumerate(zip(got, g)):
+            if abs(Fr(a) - b) > Fr(1e-9) * Fr(scale) * Fr(amp):
+                return (f'final callback: reported {name}[{i}] = {a!r} but the gradient at the reported point is '
+                        f'{float(b)!r}: ε = {cb["eps"]!r} was not computed from the final iterate\'s data')
+        bump('gradient_at_reported_point_checked')
     return None
 
 
